@@ -5,7 +5,8 @@ from .. import gen, harness, mon, ref, runfam
 from ..core import Check, derive_seed
 from ..model import Expr, In, Ref, Not, Program, Step, OneOf, Opt, OrDisabled, walk_tree
 
-OUTCOMES = ["success", "error", "crash", "deployfail", "disabled", "alt"]
+OUTCOMES = ["success", "error", "crash", "deployfail", "disabled", "alt", "never-enabled"]
+NO_EXEC = ("deployfail", "disabled", "never-enabled")
 
 
 def src_step(name, outcome):
@@ -33,15 +34,25 @@ def tagged2(t):
 
 def build(i, check):
     rng = random.Random(derive_seed(check.seed, "c15", i))
-    kind = ["wait-optional", "soft-optional", "soft-optional-never-ending", "oneof", "ordisabled", "mixed"][i % 6]
+    kind = ["wait-optional", "soft-optional", "soft-optional-never-ending", "oneof", "ordisabled", "mixed", "wait-optional-in-oneof"][i % 7]
     oa, ob = rng.choice(OUTCOMES), rng.choice(OUTCOMES)
+    if kind == "wait-optional-in-oneof":
+        # the interesting runs are those in which the option's hard source is there long before the optional one
+        oa, ob = rng.choice(["success", "success", "success", "error", "crash"]), rng.choice(["success", "success", "success", "error"])
     where = rng.choice(["top", "map", "list", "several"])
     consumer_kind = rng.choice(["step-input", "workflow-output", "both"])
     A, B = src_step("A", oa), src_step("B", ob)
     steps = [A, B]
     outcome = {}
     for n, o in (("A", oa), ("B", ob)):
-        if o not in ("success", "disabled"):
+        if o == "never-enabled":
+            # the step's `enabled` condition refers to a value that is never produced: it can neither run nor be disabled
+            from ..model import Bin, Lit
+            gate = gen.plugin_step("G" + n, Expr(In("tag")))
+            steps.append(gate)
+            outcome["G" + n] = rng.choice(["error", "crash", "deployfail"])
+            (A if n == "A" else B).fields["enabled"] = Expr(Bin("==", Ref("G" + n, "outputs", "success", "tag"), Lit("x")))
+        elif o not in ("success", "disabled"):
             outcome[n] = o
     triggers = []
     if kind == "wait-optional":
@@ -58,6 +69,10 @@ def build(i, check):
         t = OneOf("which", {na: Expr(Ref("A", "outputs", "success")), nb: Expr(Ref("B", "outputs", "success"))})
     elif kind == "ordisabled":
         t = OrDisabled(Ref("A", "outputs", "success"))
+    elif kind == "wait-optional-in-oneof":
+        # an option of a one-of that is an object with a hard field (from B) and a wait-optional field (from A)
+        t = OneOf("which", {"main": {"b": Expr(Ref("B", "outputs", "success", "tag")), "details": Opt(Ref("A", "outputs", "success", "tag"), True)},
+                            "other": Expr(Ref("B", "outputs", "error"))})
     else:
         t = {"w": Opt(Ref("A", "outputs", "success", "tag"), True), "s": Opt(Ref("B", "outputs", "success", "tag"), False),
              "o": OneOf("which", {"a": Expr(Ref("A", "outputs", "success")), "d": Expr(Ref("A", "disabled", "output"))})}
@@ -68,15 +83,15 @@ def build(i, check):
         steps.append(C)
         outs["success"] = {"c": Expr(Ref("C", "outputs", "success"))}
     if consumer_kind in ("workflow-output", "both"):
-        outs["direct"] = {"v": tagged2(value), "b": Expr(Ref("B", "outputs", "success", "tag"))} if kind not in ("oneof", "mixed") and ob == "success" and rng.random() < 0.5 else {"v": tagged2(value)}
+        outs["direct"] = {"v": tagged2(value), "b": Expr(Ref("B", "outputs", "success", "tag"))} if kind not in ("oneof", "mixed", "wait-optional-in-oneof") and ob == "success" and rng.random() < 0.5 else {"v": tagged2(value)}
     prog = Program(steps, outs, gen.BASE_INPUT)
     scripts = gen.make_scripts(steps, outcome)
     # both completion orders: hold A (or B) until the other finished
-    order = rng.choice(["free", "A-last", "B-last"])
-    if order == "A-last" and oa not in ("deployfail", "disabled", "hang") and ob not in ("deployfail", "disabled"):
+    order = rng.choice(["free", "A-last", "B-last"] if kind != "wait-optional-in-oneof" else ["free", "A-last", "A-last", "A-last", "B-last"])
+    if order == "A-last" and oa not in NO_EXEC + ("hang",) and ob not in NO_EXEC:
         scripts["A"].setdefault("exec", {"outcome": oa})["gate"] = "gA"
         triggers.append({"kind": "exec-end", "src": "B", "nth": 1, "action": "open:gA"})
-    elif order == "B-last" and ob not in ("deployfail", "disabled") and oa not in ("deployfail", "disabled", "hang"):
+    elif order == "B-last" and ob not in NO_EXEC and oa not in NO_EXEC + ("hang",):
         scripts["B"].setdefault("exec", {"outcome": ob})["gate"] = "gB"
         triggers.append({"kind": "exec-end", "src": "A", "nth": 1, "action": "open:gB"})
     else:
@@ -102,13 +117,33 @@ def finish_seq(res, src, stage="outputs"):
 
 def monitor(case, res, sem, g):
     vs = [mon.V("C15", "tag@" + v.key, v.what) for v in mon.monitor_run(case, res, sem) if v.prop in ("C03", "C02", "C04")]
+    late = mon.late_stage_waits(sem)
+    if late:
+        # known finding: a wait-optional member on the crashed/closed/deploy_failed stage of a step that can never start is not
+        # evaluated as absent; the run is ended by the fallback detector instead
+        for v in vs:
+            if v.key == "tag@result@error-but-producible:ErrNoMorePossibleSteps":
+                v.key = "tag@wait-optional-on-stage-of-never-started-step->ErrNoMorePossibleSteps"
+                v.what += " [wait-optional on %s]" % late[:2]
     ev = res.get("events") or []
     cstart = [e for e in ev if e["kind"] == "exec-start" and e["src"] == "C"]
     # wait-optional: evaluated only after its source has finished one way or the other
     waits = []
+
+    def collect(tree):
+        """wait-optional members that the consumer certainly has to wait for: those outside any one-of, and those inside a
+        one-of option if no other option of that one-of can be produced (otherwise the consumer may start on the other one)."""
+        def visit(node, path):
+            if isinstance(node, Opt) and node.wait and not any(str(p).startswith("?") for p in path):
+                waits.append(node)
+            elif isinstance(node, OneOf):
+                usable = [k for k, sub in node.options.items() if sem.avail(sub)[0] == ref.AVAIL]
+                if len(usable) == 1:
+                    walk_tree(node.options[usable[0]], lambda n2, p2: waits.append(n2) if isinstance(n2, Opt) and n2.wait else None)
+        walk_tree(tree, visit)
     for s in sem.p.steps:
         if s.name == "C":
-            walk_tree(s.fields.get("input"), lambda node, path: waits.append(node) if isinstance(node, Opt) and node.wait else None)
+            collect(s.fields.get("input"))
     if cstart and waits:
         for w in waits:
             srcname = w.node.step
